@@ -40,7 +40,7 @@ def pos_of(text, offset):
 
 def generate(tier, seed):
     rng = C.rng_for(seed, "C16")
-    nprog = 250 if tier == "quick" else 5000
+    nprog = 700 if tier == "quick" else 20000
     cases = []
     for _ in range(nprog):
         g = ProgGen(rng, max_depth=rng.choice([2, 3, 4]))
